@@ -16,6 +16,7 @@ import (
 	"fmt"
 	"os"
 	"path/filepath"
+	"runtime/debug"
 	"sort"
 	"strings"
 	"testing"
@@ -107,6 +108,10 @@ func main() {
 	)
 	testing.Init()
 	flag.Parse()
+	// Runaway recursion in the code under test should end the process quickly
+	// (and be captured as a crash), not after growing a stack to the default
+	// limit of 1 GB in every worker.
+	debug.SetMaxStack(64 << 20)
 	for _, k := range strings.Split(os.Getenv("VERIF_KNOWN"), ",") {
 		if k != "" {
 			props.KnownActive[k] = true
